@@ -28,6 +28,7 @@
   never reach the picker (the transposition table only stores generated moves or 0).
 -/
 import ChessVerif.Proofs.PickerPerm
+import ChessVerif.Proofs.PickerExhaust
 import ChessVerif.Proofs.HeurBands
 import ChessVerif.Props.C05
 import ChessVerif.Props.C16hist
@@ -65,6 +66,14 @@ theorem picker_rejects (hv : Board.valid b = true) (hfit : StoreFits b) (hhm : h
     (hpl : b.isPseudoLegal hm = false) : hm ∉ yielded b hm rk :=
   Proofs.PickerPerm.picker_rejects hfit hb (Props.C05.isPseudoLegal_iff_gen hv hhm) (Props.C05.gen_nodup hv) hpl
 
+/-- "To exhaustion": within the call budget of `Picker.yielded` (`StoreSize + 2` calls, enough by
+    `StoreFits`) the iteration really ends — the `Next` after the last yield returns false and
+    leaves the picker unchanged, so `yielded` is the complete sequence and every later call fails too. -/
+theorem picker_exhausted (hfit : StoreFits b) :
+    next b hm rk (Picker.runState b hm rk Picker.fuel Picker.init) =
+      (false, Picker.runState b hm rk Picker.fuel Picker.init) :=
+  Proofs.PickerExhaust.next_final b hm rk hfit
+
 /-- Every in-band weight is strictly above the stage-5 filter `−HashMove+1` (only the sentinel
     `−HashMove` of the hash move's second copy is filtered), strictly below `HashMove`, and quiet
     weights lie strictly between the two capture bands. -/
@@ -79,6 +88,11 @@ theorem bands_sep (h : Bands rk) (m : Move) :
 theorem bands_reachable (calls : List FHCall) (b : Board) (st : Heur.HStack) :
     Bands (Picker.rankOf (runFH calls) b st) :=
   Proofs.HeurBands.bands_reachable calls b st
+
+/-- …also with `Clear()` calls interleaved anywhere. -/
+theorem bands_reachable_ops (ops : List HistOp) (b : Board) (st : Heur.HStack) :
+    Bands (Picker.rankOf (runOps ops) b st) :=
+  Proofs.HeurBands.bands_reachable_ops ops b st
 
 /-- every cell of every store stays within ±MaxHistory along the way. -/
 theorem stores_in_range (calls : List FHCall) : RankerOK (runFH calls) := runFH_ok calls
